@@ -1,6 +1,7 @@
 (* C09 - clipped datasets stay valid: connectivity refers to surviving elements, kept cells keep their polygon. *)
 From Coq Require Import ZArith List Bool Sorted.
 From EV Require Import Base.Index Base.ListX Model.Mask Model.UMask Model.Export Model.Clip Model.Fill Proofs.ClipP Proofs.FillP.
+From EV Require Import Model.GeomNames Proofs.GeomNamesP.
 Import ListNotations.
 Open Scope Z_scope.
 
@@ -68,3 +69,46 @@ Theorem C09_old_fill_refuted : exists hi f count si k, 0 <= k < count /\ count +
     read_entry si (capped_fill_old hi f) (new_entry si (capped_fill_old hi f) (Some k)) = None.
 Proof. exact old_fill_full_table_refuted. Qed.
 Print Assumptions C09_old_fill_refuted.
+
+(* ---- keeping only some data variables leaves the geometry as it was ---- *)
+
+(* the subset holds exactly the variables asked for and the geometry, depth and time variables, in dataset order; every
+   geometry variable of the dataset survives; a request for a variable the dataset does not have is refused *)
+Theorem C09_select_variables_spec : forall vars chosen geom depth time,
+  (forall out, select_variables vars chosen geom depth time = Some out ->
+     (forall v, In v out <-> In v vars /\ (In v chosen \/ In v geom \/ In v depth \/ time = Some v)) /\
+     out = filter (fun v => GeomNames.memz v (keep_set chosen geom depth time)) vars /\
+     (forall g, In g geom -> In g vars -> In g out)) /\
+  (select_variables vars chosen geom depth time = None <-> exists c, In c chosen /\ ~ In c vars).
+Proof.
+  intros vars chosen geom depth time. split; [|apply select_refused].
+  intros out H. destruct (select_spec _ _ _ _ _ _ H) as [H1 H2]. split; [exact H1|split; [exact H2|]].
+  intros g Hg Hv. now apply (select_keeps_geometry _ _ _ _ _ _ g H).
+Qed.
+Print Assumptions C09_select_variables_spec.
+
+(* the geometry variables of the subset of a CF grid are those of the dataset (no bounds variable lost or gained), so its
+   polygons are built from the same variables *)
+Theorem C09_subset_has_the_same_geometry_variables : forall lon lat lb ltb vars chosen depth time out,
+  select_variables vars chosen (grid_names lon lat lb ltb vars) depth time = Some out ->
+  grid_names lon lat lb ltb out = grid_names lon lat lb ltb vars.
+Proof. exact grid_names_of_subset. Qed.
+Print Assumptions C09_subset_has_the_same_geometry_variables.
+
+(* asking again for the same subset changes nothing; dropping the geometry removes exactly the geometry variables *)
+Theorem C09_select_idempotent_drop_exact : forall vars chosen geom depth time out,
+  select_variables vars chosen geom depth time = Some out ->
+  select_variables out chosen geom depth time = Some out /\
+  (forall v, In v (drop_geometry out geom) <-> In v out /\ ~ In v geom).
+Proof. intros. split; [now apply select_idempotent with vars|intros v; apply drop_geometry_spec]. Qed.
+Print Assumptions C09_select_idempotent_drop_exact.
+
+(* a mesh: the four required variables are always geometry, the optional ones exactly when the topology holds them *)
+Theorem C09_mesh_geometry_variables : forall m,
+  (In (m_var m) (ugrid_names m) /\ In (m_face_node m) (ugrid_names m) /\ In (m_node_x m) (ugrid_names m) /\ In (m_node_y m) (ugrid_names m)) /\
+  (forall x, In x (ugrid_names m) <->
+     x = m_var m \/ x = m_face_node m \/ x = m_node_x m \/ x = m_node_y m \/ m_face_edge m = Some x \/ m_face_face m = Some x
+     \/ m_edge_node m = Some x \/ m_edge_face m = Some x \/ m_edge_x m = Some x \/ m_edge_y m = Some x \/ m_face_x m = Some x
+     \/ m_face_y m = Some x).
+Proof. intros m. split; [apply ugrid_names_required|apply ugrid_names_optional]. Qed.
+Print Assumptions C09_mesh_geometry_variables.
